@@ -425,6 +425,10 @@ class Ops:
             return NDArr(zip_arr(lambda x, y: self.equals(x, y), da, db)) \
                 if isinstance(da, list) or isinstance(db, list) else \
                 self.equals(da, db)
+        if hasattr(a, 'sym_equals'):
+            return a.sym_equals(b, self)
+        if hasattr(b, 'sym_equals'):
+            return b.sym_equals(a, self)
         if isinstance(a, (Obj, Opaque)) or isinstance(b, (Obj, Opaque)):
             return self._obj_eq(a, b)
         if isinstance(a, (set, frozenset)) and isinstance(b, (set, frozenset)):
